@@ -777,6 +777,40 @@ func ruleSearchExhaustive(c *Ctx) {
 		}
 	}
 	c.Check(okExit && nLoop > 0, rule, "candidate loop of "+fnName(en), "left only when the candidates are exhausted: every combination is compared", P.pos(en.Pos()), "the loop can be left early")
+	// "a better alternative replaced bestFit" is reported upwards without loss: the levels above use it to decide
+	// whether their own tie is to be installed. (1) enumPeers accumulates the answers of all combinations: the
+	// loop-carried flag takes, on its back edge, a value that depends on its previous value and on the recursive call
+	for _, l := range loopsOf(en) {
+		for _, ins := range l.header.Instrs {
+			phi, ok := ins.(*ssa.Phi)
+			if !ok {
+				break
+			}
+			if bt, isB := phi.Type().Underlying().(*types.Basic); !isB || bt.Info()&types.IsBoolean == 0 {
+				continue
+			}
+			for i, e := range phi.Edges {
+				if i >= len(l.header.Preds) || !l.blocks[l.header.Preds[i]] {
+					continue
+				}
+				keeps := derivesThroughBool(e, func(v ssa.Value) bool { return v == ssa.Value(phi) }, 6)
+				calls := derivesThroughBool(e, func(v ssa.Value) bool { return valueIsCallTo(v, F(en)) }, 6)
+				c.Check(keeps && calls, rule, "improvement flag of "+fnName(en), "the flag carried round the candidate loop is (this combination improved) ∨ (an earlier one did): no improvement is forgotten", P.instrPos(phi), fmt.Sprintf("keeps the earlier answers: %v, takes the recursive answer: %v", keeps, calls))
+			}
+		}
+	}
+	// (2) compareBest never answers false after the search of the following rules reported an improvement
+	cbF := P.Method(pl, "fitWorker", "compareBest")
+	fitRule := F(P.Method(pl, "fitWorker", "fitRule"))
+	c.need(rule, cbF, "answer other than true", func(x ssa.Instruction) bool {
+		r, ok := x.(*ssa.Return)
+		if !ok || len(r.Results) != 1 {
+			return false
+		}
+		b, isC := constBool(retVal(r, 0))
+		return !(isC && b)
+	}, []Ev{guardCall("fitRule(index+1) reported an improvement", true, callMatcher(fitRule))}, func(h []bool) bool { return !h[0] },
+		"when a tie on this rule let the following rules find a better fit, the improvement is reported to the rule above")
 	cr := P.Func(pl, "checkRule")
 	match := F(P.Func(pl, "MatchLabelConstraints"))
 	c.saw(fnName(cr))
@@ -817,4 +851,61 @@ func identityOfParams(fn *ssa.Function, sameObj bool) func(v ssa.Value) (ordVal,
 		}
 		return ordVal{b: sameObj == (bo.Op == token.EQL), kind: 'b'}, true
 	}
+}
+
+// derivesThroughBool: v depends on a value satisfying p through φs and boolean
+// operators (the shapes `a || b`, `if a { x = true }` take in SSA form: a φ
+// whose operands are constants, earlier flags, or the tested condition).
+func derivesThroughBool(v ssa.Value, p valPred, depth int) bool {
+	seen := map[ssa.Value]bool{}
+	var rec func(v ssa.Value, d int) bool
+	rec = func(v ssa.Value, d int) bool {
+		if v == nil || d < 0 || seen[v] {
+			return false
+		}
+		seen[v] = true
+		if p(v) {
+			return true
+		}
+		switch x := v.(type) {
+		case *ssa.Phi:
+			for _, e := range x.Edges {
+				if rec(e, d-1) {
+					return true
+				}
+			}
+			// a constant operand chosen by a test of a value satisfying p (`if call() { flag = true }`)
+			for i, e := range x.Edges {
+				if _, isC := e.(*ssa.Const); isC && i < len(x.Block().Preds) {
+					for _, ctl := range controllingConds(x.Block().Preds[i], 3) {
+						if rec(ctl, d-1) {
+							return true
+						}
+					}
+				}
+			}
+		case *ssa.BinOp:
+			return rec(x.X, d-1) || rec(x.Y, d-1)
+		case *ssa.UnOp:
+			return rec(x.X, d-1)
+		}
+		return false
+	}
+	return rec(v, depth)
+}
+
+// controllingConds: the conditions of the If instructions on the way into b
+// (b itself when it ends in an If, and its single-predecessor ancestors).
+func controllingConds(b *ssa.BasicBlock, depth int) []ssa.Value {
+	var out []ssa.Value
+	for i := 0; i <= depth && b != nil; i++ {
+		if iff, ok := b.Instrs[len(b.Instrs)-1].(*ssa.If); ok {
+			out = append(out, iff.Cond)
+		}
+		if len(b.Preds) != 1 {
+			break
+		}
+		b = b.Preds[0]
+	}
+	return out
 }
